@@ -1,5 +1,5 @@
 //! C17: entity-manifest slicing keeps everything authorization needs.
-//! One case = one generated schema world (gen_schema.rs) with a conformant store, a strictly valid policy set
+//! One case = one generated schema world (gen_schema.rs; every third one a chain world of gen_schema_chain.rs) with a conformant store, a strictly valid policy set
 //! (gen_typed.rs policies + the manifest-stressing families below + sometimes a linked template) and ~10 conformant
 //! requests.
 //!   S  (the property on the implementation, `propfail`):
